@@ -6,6 +6,7 @@ mod mem;
 mod ops;
 mod props;
 mod replygen;
+mod sched;
 mod sess;
 mod strings;
 mod xmlgen;
@@ -69,7 +70,19 @@ fn main() {
         i += 1;
     }
     // panics inside the code under test are caught per case; keep their output out of the way
-    std::panic::set_hook(Box::new(|_| {}));
+    std::panic::set_hook(Box::new(|info| {
+        let loc = info
+            .location()
+            .map(|l| format!("{}:{}", l.file(), l.line()))
+            .unwrap_or_else(|| "?".into());
+        let msg = info
+            .payload()
+            .downcast_ref::<String>()
+            .cloned()
+            .or_else(|| info.payload().downcast_ref::<&str>().map(|s| (*s).to_string()))
+            .unwrap_or_default();
+        core::LAST_PANIC.with(|p| *p.borrow_mut() = Some((loc, msg)));
+    }));
     if id == "list" {
         for p in props::all() {
             println!("{} {:?}", p.id, p.parts.iter().map(|x| x.name()).collect::<Vec<_>>());
